@@ -69,20 +69,29 @@ FusedOp == \E op \in {"mul_add_ptv", "mul_sub_ptv", "mul_add_ptc", "mul_sub_ptc"
 AddMany == \E d, a, b, c \in Regs, cnt \in 1..3 :
          /\ Alloc(d) /\ IsOk(a) /\ d # a /\ (cnt >= 2 => IsOk(b) /\ d # b) /\ (cnt >= 3 => IsOk(c) /\ d # c)
          /\ Do([Step("add_many", d, a, b, cnt, 0, 0, 0, 0, 0) EXCEPT !.c = c])
+\* dot product of two pairs <a, c> . <b, e> (register e in the field `bits`) and the product of three a * (b * c)
+DotCt == \E d, a, b, c, e \in Regs :
+         /\ Alloc(d) /\ IsOk(a) /\ IsOk(b) /\ IsOk(c) /\ IsOk(e) /\ d \notin {a, b, c, e}
+         /\ (LastStep \/ (NoSpare(a) /\ NoSpare(b) /\ NoSpare(c) /\ NoSpare(e)))
+         /\ Do([Step("dot_ct", d, a, b, e, 0, 0, 0, 0, 0) EXCEPT !.c = c])
+MulMany == \E d, a, b, c \in Regs :
+         /\ Alloc(d) /\ IsOk(a) /\ IsOk(b) /\ IsOk(c) /\ d \notin {a, b, c}
+         /\ (LastStep \/ (NoSpare(a) /\ NoSpare(b) /\ NoSpare(c)))
+         /\ Do([Step("mul_many", d, a, b, 3, 0, 0, 0, 0, 0) EXCEPT !.c = c])
 Realloc == \E d \in Regs, sz \in 1..8 : IsOk(d) /\ Do(Step("realloc", d, d, 0, sz, 0, 0, 0, 0, 0))
 Finish == /\ Len(prog) = Depth /\ ~done /\ done' = TRUE
           /\ PrintT(<<"PROG", ToJson([n |-> 2 ^ LogN, b |-> B, kmax |-> KMax, be |-> be, prog |-> prog])>>)
           /\ UNCHANGED <<regs, prog, fam, be>>
 \* two-phase choice (family first, then parameters) so that every operation family is equally likely in simulation
-Fams == {"enc", "alloc", "uninto", "unassign", "rot", "pow2", "addsub", "mul", "realloc", "ptinto", "ptassign", "fused", "fusedct", "addmany"}
+Fams == {"enc", "alloc", "uninto", "unassign", "rot", "pow2", "addsub", "mul", "realloc", "ptinto", "ptassign", "fused", "fusedct", "addmany", "dotct", "mulmany"}
 Enabled(f) == CASE f = "enc" -> ENABLED Enc [] f = "alloc" -> ENABLED AllocD [] f = "uninto" -> ENABLED UnInto [] f = "unassign" -> ENABLED UnAssign
                 [] f = "rot" -> ENABLED Rot [] f = "pow2" -> ENABLED Pow2 [] f = "addsub" -> ENABLED AddSub [] f = "mul" -> ENABLED Mul
-                [] f = "ptinto" -> ENABLED PtInto [] f = "ptassign" -> ENABLED PtAssign [] f = "fused" -> ENABLED FusedOp [] f = "fusedct" -> ENABLED FusedCt [] f = "addmany" -> ENABLED AddMany [] OTHER -> ENABLED Realloc
+                [] f = "ptinto" -> ENABLED PtInto [] f = "ptassign" -> ENABLED PtAssign [] f = "fused" -> ENABLED FusedOp [] f = "fusedct" -> ENABLED FusedCt [] f = "addmany" -> ENABLED AddMany [] f = "dotct" -> ENABLED DotCt [] f = "mulmany" -> ENABLED MulMany [] OTHER -> ENABLED Realloc
 Pick == /\ fam = "" /\ Len(prog) >= 2 /\ Len(prog) < Depth /\ \E f \in Fams : Enabled(f) /\ fam' = f /\ UNCHANGED <<regs, prog, done, be>>
 DoFam == /\ fam # ""
          /\ CASE fam = "enc" -> Enc [] fam = "alloc" -> AllocD [] fam = "uninto" -> UnInto [] fam = "unassign" -> UnAssign
               [] fam = "rot" -> Rot [] fam = "pow2" -> Pow2 [] fam = "addsub" -> AddSub [] fam = "mul" -> Mul
-              [] fam = "ptinto" -> PtInto [] fam = "ptassign" -> PtAssign [] fam = "fused" -> FusedOp [] fam = "fusedct" -> FusedCt [] fam = "addmany" -> AddMany [] OTHER -> Realloc
+              [] fam = "ptinto" -> PtInto [] fam = "ptassign" -> PtAssign [] fam = "fused" -> FusedOp [] fam = "fusedct" -> FusedCt [] fam = "addmany" -> AddMany [] fam = "dotct" -> DotCt [] fam = "mulmany" -> MulMany [] OTHER -> Realloc
 Next == \/ /\ Len(prog) < 2 /\ fam = "" /\ Enc
         \/ Pick \/ DoFam
         \/ Finish
